@@ -6,6 +6,7 @@ import (
 	"math/rand"
 	"strconv"
 	"strings"
+	"unicode/utf8"
 
 	"gopkg.in/yaml.v3"
 )
@@ -39,6 +40,7 @@ var IncludeLocations = []string{
 	"http://%zz", "http://[::1", "http://user:pw@127.0.0.1:1/a b.yml", "https://127.0.0.1:1/x.yml?ref=%", "://", "", " ", ".", "./", "..", "/", "//", "dir", "./dir", "dir/",
 	"emptydir", "./Taskfile.yml", "Taskfile.yml", "inc.yml", "./inc.yml", "missing.yml", "~", "~/", "~/x.yml", "~nouser/x.yml", "$HOME/x.yml", "$VAR", "${UNSET}",
 	"${", "$(echo x)", "`echo x`", "{{.X}}", "{{", "{{.HOME}}/x.yml", "{{.TASKFILE_DIR}}/inc.yml", "file:///etc/hostname", "ftp://127.0.0.1/x.yml", "-", "*", "a\x00b",
+	"#inc.yml", "#", " #x", "\\\n", "'", "$(", "`", "~nosuchuser", "*[", "{a,", "[\xaa]", ";", "&&", "<(", "inc.yml #c",
 	"C:\\x\\Taskfile.yml", "\\\\host\\share", strings.Repeat("a/", 300) + "x.yml", strings.Repeat("../", 40) + "etc/hostname", "inc.yml ", "./dir/../inc.yml",
 }
 
@@ -52,6 +54,7 @@ var oddScalars = []string{"", "~", "null", "true", "false", "yes", "on", "1", "-
 	"9223372036854775807", "9223372036854775808", "1e999", "-1e999", "0x7fffffffffffffff", "0o777", "0b1", ".inf", "-.inf", ".nan", "1_000", "012", "+1", "1.",
 	"{{.X}}", "{{", "}}", "{{.", "{{end}}", "{{range}}", "{{template \"x\"}}", "{{index .MATCH 5}}", "{{.MATCH}}", "{{printf \"%s\"}}", "{{\"", "a(", "*", "**", ":", "::",
 	"<<", "-", "- -", "?", "|", ">", "!", "!!", "&", "&a", "*a", "%", "@", "`", "#", " ", "\t", "\n", "\r", "a\x00b", "\xff", "2001-01-01", "2001-01-01T00:00:00Z",
+	"#x", " #x", "\\\n", "$(", "${", "~nosuchuser", "*[", "{a,", "&&", "<(",
 	"1s", "-1s", "1", "abc", "1h1", "9999999h", "linux", "linux/", "/amd64", "windows/arm", "checksum", "timestamp", "none", "always", "once", "when_changed",
 	"interleaved", "group", "prefixed", "sources", "3", "3.0.0", "v3", "2", "4", "3.99999", "3.x", ".", "..", "/", "~", "$HOME", "default"}
 
@@ -98,6 +101,10 @@ func scalar(v string) *yaml.Node {
 }
 
 func strScalar(v string) *yaml.Node {
+	if !utf8.ValidString(v) {
+		// the encoder turns an untagged invalid string into !!binary, which decodes to the raw bytes
+		return &yaml.Node{Kind: yaml.ScalarNode, Value: v, Style: yaml.DoubleQuotedStyle}
+	}
 	return &yaml.Node{Kind: yaml.ScalarNode, Tag: "!!str", Value: v, Style: yaml.DoubleQuotedStyle}
 }
 
@@ -569,5 +576,196 @@ func hugeLexical(r *rand.Rand, thorough bool) ([]byte, string) {
 		return depRing([]int{30, 300}[r.Intn(2)]), MutStructNest + ":dep-ring"
 	case 5: // merge keys
 		return []byte("version: '3'\nx: &x {cmds: [echo], <<: {desc: d}}\ntasks:\n  a: {<<: *x, <<: [*x, *x]}\n  <<: *x\n<<: {tasks: {b: echo}}\n"), MutStructAlias + ":merge-keys"
+	}
+}
+
+// MutShell puts a "shell-word hostile" string into a field that goes through
+// shell-word expansion, globbing or the shell itself.
+const MutShell = "shell:hostile-word"
+
+// ShellHostile are strings that a shell-word parser / expander / globber reads
+// as something other than one plain word: comments (zero words), unterminated
+// quotes and substitutions, tilde forms, glob and brace fragments, operators,
+// blanks, line continuations, invalid UTF-8 inside a bracket expression.
+var ShellHostile = []string{
+	"#x", " #x", "#", "#build", "\t#x", "\\\n", "\\\n#x", "\\", "a\\", "'", "\"", "a'b", "$(", "`", "${", "$((", "$((1/0))", "$(echo x", "${X:-", "${#", "$", "$'",
+	"~", "~nosuchuser", "~+", "~/", "*[", "[", "[!", "[a-", "{a,", "{a,b}/*", "**", "*/**", "?", " ", "\t", "\n", "a\nb", ";", "&&", "|", ">", "<(", "&", "!", "x #y", "\\#x",
+	"[\xaa]", "\xaa", "#\xff", "a b", "'a b'", "$HOME/#x", "$UNSET_FZ", "${UNSET_FZ}#x", "{{.FZH}}",
+}
+
+// hostileScalar renders s so that it survives the YAML round trip as a string
+// (double quoted; invalid UTF-8 becomes !!binary, which decodes to the raw bytes).
+func hostileScalar(s string) *yaml.Node {
+	return &yaml.Node{Kind: yaml.ScalarNode, Value: s, Style: yaml.DoubleQuotedStyle}
+}
+
+func mapGet(m *yaml.Node, key string) *yaml.Node {
+	if m == nil || m.Kind != yaml.MappingNode {
+		return nil
+	}
+	for i := 0; i+1 < len(m.Content); i += 2 {
+		if m.Content[i].Kind == yaml.ScalarNode && m.Content[i].Value == key {
+			return m.Content[i+1]
+		}
+	}
+	return nil
+}
+
+func mapSet(m *yaml.Node, key string, v *yaml.Node) {
+	for i := 0; i+1 < len(m.Content); i += 2 {
+		if m.Content[i].Kind == yaml.ScalarNode && m.Content[i].Value == key {
+			m.Content[i+1] = v
+			return
+		}
+	}
+	m.Content = append(m.Content, scalar(key), v)
+}
+
+// seqAppend appends v to the sequence under key (a scalar there becomes the first item).
+func seqAppend(m *yaml.Node, key string, v *yaml.Node) {
+	cur := mapGet(m, key)
+	switch {
+	case cur == nil:
+		mapSet(m, key, &yaml.Node{Kind: yaml.SequenceNode, Content: []*yaml.Node{v}})
+	case cur.Kind == yaml.SequenceNode:
+		cur.Content = append(cur.Content, v)
+	default:
+		mapSet(m, key, &yaml.Node{Kind: yaml.SequenceNode, Content: []*yaml.Node{cur, v}})
+	}
+}
+
+// shellMutate places one hostile string (literally or through a template
+// variable) in a shell-expanded field. It returns the task it touched, if any.
+func shellMutate(r *rand.Rand, doc *yaml.Node) (focus string, ok bool) {
+	root := doc.Content[0]
+	if root.Kind != yaml.MappingNode {
+		return "", false
+	}
+	h := ShellHostile[r.Intn(len(ShellHostile))]
+	val := hostileScalar(h)
+	if r.Intn(3) == 0 {
+		// only after templating
+		vars := mapGet(root, "vars")
+		if vars == nil || vars.Kind != yaml.MappingNode {
+			vars = &yaml.Node{Kind: yaml.MappingNode}
+			mapSet(root, "vars", vars)
+		}
+		mapSet(vars, "FZH", hostileScalar(h))
+		val = hostileScalar([]string{"{{.FZH}}", "{{.FZH}}", "x/{{.FZH}}", "{{.FZH}}/x", "{{.FZH}}{{.FZH}}"}[r.Intn(5)])
+	}
+	// a task with a mapping body to work on
+	pickTask := func() (string, *yaml.Node) {
+		tasks := mapGet(root, "tasks")
+		if tasks == nil || tasks.Kind != yaml.MappingNode {
+			tasks = &yaml.Node{Kind: yaml.MappingNode}
+			mapSet(root, "tasks", tasks)
+		}
+		var idx []int
+		for i := 0; i+1 < len(tasks.Content); i += 2 {
+			if tasks.Content[i].Kind == yaml.ScalarNode && tasks.Content[i+1].Kind == yaml.MappingNode {
+				idx = append(idx, i)
+			}
+		}
+		if len(idx) == 0 || r.Intn(6) == 0 {
+			body := &yaml.Node{Kind: yaml.MappingNode, Content: []*yaml.Node{scalar("desc"), strScalar("fz"), scalar("cmds"), {Kind: yaml.SequenceNode, Content: []*yaml.Node{strScalar("echo fz")}}}}
+			tasks.Content = append(tasks.Content, strScalar("fzsh"), body)
+			return "fzsh", body
+		}
+		i := idx[r.Intn(len(idx))]
+		return tasks.Content[i].Value, tasks.Content[i+1]
+	}
+	switch op := r.Intn(16); {
+	case op < 4: // task dir
+		name, t := pickTask()
+		mapSet(t, "dir", val)
+		return name, true
+	case op < 6: // include location
+		incs := mapGet(root, "includes")
+		if incs == nil || incs.Kind != yaml.MappingNode {
+			incs = &yaml.Node{Kind: yaml.MappingNode}
+			mapSet(root, "includes", incs)
+		}
+		if r.Intn(2) == 0 {
+			incs.Content = append(incs.Content, strScalar("fzi"), val)
+		} else {
+			m := &yaml.Node{Kind: yaml.MappingNode, Content: []*yaml.Node{scalar("taskfile"), val}}
+			if r.Intn(2) == 0 {
+				m.Content = append(m.Content, scalar("optional"), scalar("true"))
+			}
+			incs.Content = append(incs.Content, strScalar("fzi"), m)
+		}
+		return "", true
+	case op < 8: // include dir
+		incs := mapGet(root, "includes")
+		if incs == nil || incs.Kind != yaml.MappingNode {
+			incs = &yaml.Node{Kind: yaml.MappingNode}
+			mapSet(root, "includes", incs)
+		}
+		incs.Content = append(incs.Content, strScalar("fzi"), &yaml.Node{Kind: yaml.MappingNode, Content: []*yaml.Node{scalar("taskfile"), strScalar("./inc.yml"), scalar("dir"), val}})
+		return "fzi:t", true
+	case op < 10: // sources / generates globs
+		name, t := pickTask()
+		key := []string{"sources", "generates"}[r.Intn(2)]
+		if r.Intn(4) == 0 {
+			seqAppend(t, key, &yaml.Node{Kind: yaml.MappingNode, Content: []*yaml.Node{scalar("exclude"), val}})
+		} else {
+			seqAppend(t, key, val)
+		}
+		if r.Intn(2) == 0 {
+			mapSet(t, "method", scalar([]string{"checksum", "timestamp"}[r.Intn(2)]))
+		}
+		return name, true
+	case op < 11: // dotenv paths
+		if r.Intn(2) == 0 {
+			seqAppend(root, "dotenv", val)
+			return "", true
+		}
+		name, t := pickTask()
+		seqAppend(t, "dotenv", val)
+		return name, true
+	case op < 13: // text handed to the shell
+		name, t := pickTask()
+		switch r.Intn(5) {
+		case 0:
+			seqAppend(t, "status", val)
+		case 1:
+			seqAppend(t, "preconditions", val)
+		case 2:
+			seqAppend(t, "preconditions", &yaml.Node{Kind: yaml.MappingNode, Content: []*yaml.Node{scalar("sh"), val}})
+		case 3:
+			seqAppend(t, "cmds", val)
+		default:
+			seqAppend(t, "cmds", &yaml.Node{Kind: yaml.MappingNode, Content: []*yaml.Node{scalar("cmd"), val, scalar("ignore_error"), scalar("true")}})
+		}
+		return name, true
+	case op < 15: // dynamic variables
+		shv := &yaml.Node{Kind: yaml.MappingNode, Content: []*yaml.Node{scalar("sh"), val}}
+		if r.Intn(2) == 0 {
+			for _, k := range []string{"vars", "env"}[r.Intn(2):][:1] {
+				m := mapGet(root, k)
+				if m == nil || m.Kind != yaml.MappingNode {
+					m = &yaml.Node{Kind: yaml.MappingNode}
+					mapSet(root, k, m)
+				}
+				mapSet(m, "FZSH", shv)
+			}
+			return "", true
+		}
+		name, t := pickTask()
+		k := []string{"vars", "env"}[r.Intn(2)]
+		m := mapGet(t, k)
+		if m == nil || m.Kind != yaml.MappingNode {
+			m = &yaml.Node{Kind: yaml.MappingNode}
+			mapSet(t, k, m)
+		}
+		mapSet(m, "FZSH", shv)
+		if r.Intn(2) == 0 {
+			mapSet(t, "dir", hostileScalar(ShellHostile[r.Intn(len(ShellHostile))])) // the sh: runs in the task's dir
+		}
+		return name, true
+	default: // label / prefix / for-split: rendered text
+		name, t := pickTask()
+		mapSet(t, []string{"label", "prefix", "summary", "desc"}[r.Intn(4)], val)
+		return name, true
 	}
 }
